@@ -3,6 +3,8 @@ mod cpu_mask;
 mod filesystem;
 mod platform;
 mod processor;
+#[cfg(folo_verif)]
+pub mod verif;
 
 use bindings::*;
 use cpu_mask::*;
